@@ -115,13 +115,14 @@ Record world := mkWorld {
   g_prep : list (N * ent * list pitem);             (* ghost: (ticket, system, entries parked) per command, in issue order *)
   g_claim : list (N * ent * list pitem);            (* ghost: (ticket, system, entries claimed) per successful setup *)
   g_runs : list (ent * N * N);                      (* ghost: (system, Local, captured counter) logged by every body, in order *)
+  g_oruns : list ent;                               (* ghost: one entry per run of the inner system of a `once` wrapper *)
   (* observation *)
   log : list ev;
 }.
 #[export] Instance eta_world : Settable _ := settable! mkWorld
   <alive; comps; storage; cbs; ereactors; dtrackers; dataents; xlocals; resvals; removed; removed_seq; generation; next_ent;
    sigs; next_sig; gc_chan; comp_tbl; desp_tbl; any_tbl; res_tbl; bc_tbl; removal_checkers; despawn_chan;
-   counter; buffer; ticket_ctr; tr_ev; tr_se; tr_er; tr_de; bound; tokens; spawned; g_prep; g_claim; g_runs; log>.
+   counter; buffer; ticket_ctr; tr_ev; tr_se; tr_er; tr_de; bound; tokens; spawned; g_prep; g_claim; g_runs; g_oruns; log>.
 
 Definition FIRST_INTERNAL : N := 1000000.
 Definition PLACEHOLDER : N := 500000.
@@ -135,11 +136,12 @@ Definition init_world : world := {|
   comp_tbl := []; desp_tbl := []; any_tbl := []; res_tbl := []; bc_tbl := []; removal_checkers := []; despawn_chan := [];
   counter := 0; buffer := []; ticket_ctr := 0;
   tr_ev := empty_trk 0; tr_se := empty_trk 0; tr_er := empty_trk (0, 0, RIns UNIT_TY); tr_de := empty_trk (0, None);
-  bound := []; tokens := []; spawned := []; g_prep := []; g_claim := []; g_runs := []; log := [] |}.
+  bound := []; tokens := []; spawned := []; g_prep := []; g_claim := []; g_runs := []; g_oruns := []; log := [] |}.
 
 Definition emit (e : ev) (w : world) : world := w <| log ::= fun l => l ++ [e] |>.
 Definition note_claim (k : N) (s : ent) (items : list pitem) (w : world) : world := w <| g_claim ::= fun l => l ++ [(k, s, items)] |>.
-Definition note_run (s : ent) (runno captured : N) (w : world) : world := w <| g_runs ::= fun l => l ++ [(s, runno, captured)] |>.
+Definition note_run (s : ent) (runno captured : N) (once : bool) (w : world) : world :=
+  w <| g_runs ::= fun l => l ++ [(s, runno, captured)] |> <| g_oruns ::= fun l => if once then l ++ [s] else l |>.
 Definition note_prep (k : N) (s : ent) (items : list pitem) (w : world) : world := w <| g_prep ::= fun l => l ++ [(k, s, items)] |>.
 Definition is_alive (e : ent) (w : world) : bool := memN e (alive w).
 
